@@ -12,6 +12,64 @@ pub open spec fn transpose_seq(a: int, b: int) -> Seq<usize> {
 }
 ''')
 
+raw(r'''
+/// interleaving two families of n blocks: the sizes of the 2n blocks taken in the order 0, n, 1, n+1, ...
+pub proof fn lemma_interleave_offsets(fs: Seq<usize>, rs: Seq<usize>, s2: Seq<usize>, i: int)
+    requires fs.len() == rs.len(), s2.len() == fs.len(), 0 <= i <= fs.len(), 2 * fs.len() <= usize::MAX,
+        forall|m: int| 0 <= m < fs.len() ==> s2[m] == fs[m] + rs[m],
+    ensures ({ let n = fs.len() as int; let k = kseq(fs + rs, transpose_seq(2, n));
+        psum(k, 2 * i) == psum(fs, i) + psum(rs, i) && psum(s2, i) == psum(fs, i) + psum(rs, i)
+        && (i < n ==> k[2 * i] == fs[i] && k[2 * i + 1] == rs[i] && psum(k, 2 * i + 1) == psum(fs, i) + psum(rs, i) + fs[i]) })
+    decreases i
+{
+    let n = fs.len() as int; let p = transpose_seq(2, n); let k = kseq(fs + rs, p);
+    assert(2 * n == n * 2) by (nonlinear_arith);
+    if i > 0 {
+        lemma_interleave_offsets(fs, rs, s2, i - 1);
+        assert(psum(k, 2 * i) == psum(k, 2 * i - 1) + k[2 * i - 1]);
+        assert(psum(k, 2 * i - 1) == psum(k, 2 * (i - 1)) + k[2 * (i - 1)]);
+    }
+    if i < n {
+        assert(transpose_at(2 * i, 2, n) == i) by (nonlinear_arith) requires 0 <= i < n;
+        assert(transpose_at(2 * i + 1, 2, n) == n + i) by (nonlinear_arith) requires 0 <= i < n;
+        assert(p[2 * i] == i && p[2 * i + 1] == n + i);
+        assert((fs + rs)[i] == fs[i] && (fs + rs)[n + i] == rs[i]);
+        assert(psum(k, 2 * i + 1) == psum(k, 2 * i) + k[2 * i]);
+    }
+}
+
+/// the values of the interleaving, block by block
+pub proof fn lemma_interleave_values<T>(fs: Seq<usize>, rs: Seq<usize>, fv: Seq<T>, rv: Seq<T>, s2: Seq<usize>, vals: Seq<T>)
+    requires fs.len() == rs.len(), s2.len() == fs.len(), total(fs) == fv.len(), total(rs) == rv.len(), 2 * fs.len() <= usize::MAX,
+        forall|m: int| 0 <= m < fs.len() ==> s2[m] == fs[m] + rs[m],
+        vals.len() == total(kseq(fs + rs, transpose_seq(2, fs.len() as int))),
+        forall|m: int, j: int| 0 <= m < 2 * fs.len() && 0 <= j < kseq(fs + rs, transpose_seq(2, fs.len() as int))[m] ==>
+            vals[#[trigger] seg_at(kseq(fs + rs, transpose_seq(2, fs.len() as int)), m, j)] == (fv + rv)[psum(fs + rs, transpose_seq(2, fs.len() as int)[m] as int) + j],
+    ensures total(s2) == fv.len() + rv.len(), vals.len() == total(s2),
+        forall|i: int, j: int| 0 <= i < fs.len() && 0 <= j < fs[i] ==> vals[#[trigger] seg_at(s2, i, j)] == fv[psum(fs, i) + j],
+        forall|i: int, j: int| 0 <= i < fs.len() && 0 <= j < rs[i] ==> #[trigger] vals[seg_at(s2, i, fs[i] + j)] == rv[psum(rs, i) + j],
+{
+    let n = fs.len() as int; let p = transpose_seq(2, n); let k = kseq(fs + rs, p);
+    assert(2 * n == n * 2) by (nonlinear_arith);
+    assert(k.len() == 2 * n);
+    lemma_interleave_offsets(fs, rs, s2, n);
+    assert forall|i: int, j: int| 0 <= i < n && 0 <= j < fs[i] implies vals[#[trigger] seg_at(s2, i, j)] == fv[psum(fs, i) + j] by {
+        lemma_interleave_offsets(fs, rs, s2, i);
+        assert(vals[seg_at(k, 2 * i, j)] == (fv + rv)[psum(fs + rs, p[2 * i] as int) + j]);
+        assert(transpose_at(2 * i, 2, n) == i) by (nonlinear_arith) requires 0 <= i < n;
+        lemma_psum_prefix(fs + rs, fs, i);
+        lemma_seg_range(fs, i, j);
+    }
+    assert forall|i: int, j: int| 0 <= i < n && 0 <= j < rs[i] implies #[trigger] vals[seg_at(s2, i, fs[i] + j)] == rv[psum(rs, i) + j] by {
+        lemma_interleave_offsets(fs, rs, s2, i);
+        assert(vals[seg_at(k, 2 * i + 1, j)] == (fv + rv)[psum(fs + rs, p[2 * i + 1] as int) + j]);
+        assert(transpose_at(2 * i + 1, 2, n) == n + i) by (nonlinear_arith) requires 0 <= i < n;
+        lemma_psum_concat(fs, rs, i);
+        lemma_seg_range(rs, i, j);
+    }
+}
+''')
+
 fn(OP, 'interleave_blocks', kind='free', status='P', props=['C14', 'C05'], where_add='O: Clone + PartialEq, A: Clone',
    requires=['a.wf()', 'b.wf()', 'a.sources.table@.len() == b.sources.table@.len()', 'lawful_clone::<O>()',
              'small(a.values@.len())', 'small(b.values@.len())', 'small(a.sources.table@.len())',
@@ -19,11 +77,31 @@ fn(OP, 'interleave_blocks', kind='free', status='P', props=['C14', 'C05'], where
              'total(kseq(a.sources.table@ + b.sources.table@, transpose_seq(2, a.sources.table@.len() as int))) <= usize::MAX'],
    ensures=[('C14.interleave-wf', 'r.wf()'),
             ('C14.interleave-source', 'r.src_type() =~= a.values@ + b.values@'),
-            ('C14.interleave-shape', 'r.h.x@.len() == 0 && r.h.w@ == a.values@ + b.values@ && r.s.table@.len() == a.values@.len() + b.values@.len()')],
+            ('C14.interleave-shape', 'r.h.x@.len() == 0 && r.h.w@ == a.values@ + b.values@ && r.s.table@.len() == a.values@.len() + b.values@.len()'),
+            ('C14.interleave-target', '''({ let fs = a.sources.table@; let rs = b.sources.table@; let s2 = Seq::new(fs.len(), |m: int| (fs[m] + rs[m]) as usize);
+                r.t.table@.len() == a.values@.len() + b.values@.len() && total(s2) == a.values@.len() + b.values@.len()
+                && (forall|i: int, j: int| 0 <= i < fs.len() && 0 <= j < fs[i] ==> r.tgt_type()[#[trigger] seg_at(s2, i, j)] == a.values@[psum(fs, i) + j])
+                && (forall|i: int, j: int| 0 <= i < fs.len() && 0 <= j < rs[i] ==> #[trigger] r.tgt_type()[seg_at(s2, i, fs[i] + j)] == b.values@[psum(rs, i) + j]) })''')],
    proofs=[('before:let t = ab', '''lemma_seg_wf_sources(ab.sources, ab.values@.len());
             let n = a.sources.table@.len() as int;
             assert(2 * n == n * 2 && 2 * n == n + n) by (nonlinear_arith);
-            lemma_ext_all(transpose_seq(2, n));''')])
+            lemma_ext_all(transpose_seq(2, n));'''),
+           ('before:OpenHypergraph::spider(s, t, ab.values.clone()).unwrap()', '''let fs = a.sources.table@; let rs = b.sources.table@; let n = fs.len() as int;
+            let s2 = Seq::new(fs.len(), |m: int| (fs[m] + rs[m]) as usize);
+            let tg = Seq::new(t.table@.len(), |m: int| ab.values@[t.table@[m] as int]);
+            assert(2 * n == n * 2) by (nonlinear_arith);
+            assert(ab.sources.table@ == fs + rs);
+            assert forall|m: int| 0 <= m < n implies fs[m] + rs[m] <= usize::MAX by {
+                lemma_psum_mono(fs, 0, m); lemma_psum_mono(fs, m + 1, n); lemma_psum_mono(rs, 0, m); lemma_psum_mono(rs, m + 1, n);
+                assert(psum(fs, m + 1) == psum(fs, m) + fs[m] && psum(rs, m + 1) == psum(rs, m) + rs[m]);
+            }
+            let k = kseq(fs + rs, transpose_seq(2, n));
+            assert forall|m: int, j: int| 0 <= m < 2 * n && 0 <= j < k[m] implies
+                tg[#[trigger] seg_at(k, m, j)] == (a.values@ + b.values@)[psum(fs + rs, transpose_seq(2, n)[m] as int) + j] by {
+                lemma_seg_range(k, m, j);
+                assert(t.table@[seg_at(k, m, j)] == psum(fs + rs, transpose_seq(2, n)[m] as int) + j);
+            }
+            lemma_interleave_values(fs, rs, a.values@, b.values@, s2, tg);''')])
 
 fn(OP, 'partial_dagger', kind='free', status='P', props=['C14', 'C05'], where_add='O: Clone, A: Clone',
    requires=['c.wf()', 'c.s.table@.len() == fa.values@.len() + rb.values@.len()', 'c.t.table@.len() == fb.values@.len() + ra.values@.len()',
@@ -37,4 +115,168 @@ fn(OP, 'partial_dagger', kind='free', status='P', props=['C14', 'C05'], where_ad
                 && (forall|i: int| 0 <= i < na ==> r.s.table@[i] == c.s.table@[i])
                 && (forall|i: int| na <= i < na + ma ==> r.s.table@[i] == c.t.table@[nb + (i - na)])
                 && (forall|i: int| 0 <= i < nb ==> r.t.table@[i] == c.t.table@[i])
-                && (forall|i: int| nb <= i < nb + mb ==> r.t.table@[i] == c.s.table@[na + (i - nb)]) })''')])
+                && (forall|i: int| nb <= i < nb + mb ==> r.t.table@[i] == c.s.table@[na + (i - nb)]) })'''),
+            ('C14.partial_dagger-type', '''lawful_clone::<O>() ==> ({ let na = fa.values@.len() as int; let nb = fb.values@.len() as int; let ma = ra.values@.len() as int; let mb = rb.values@.len() as int;
+                r.src_type() =~= c.src_type().subrange(0, na) + c.tgt_type().subrange(nb, nb + ma)
+                && r.tgt_type() =~= c.tgt_type().subrange(0, nb) + c.src_type().subrange(na, na + mb) })''')])
+
+# ---------------------------------------------------------------------------------------------
+# Optic::map_object: the object map of the optic is the block-wise concatenation F(A) ++ R(A)  (C14 typing)
+# ---------------------------------------------------------------------------------------------
+raw(r'''
+/// The struct `Optic` of /repo, DECLARED here rather than extracted: Verus rejects the type `Box<dyn Fn(..) -> ..>` of its
+/// `residual` field, which is replaced by an opaque type.  The method under contract below (map_object) reads only
+/// `fwd` and `rev`.
+#[verifier::external_body]
+#[verifier::accept_recursive_types(O1)]
+#[verifier::accept_recursive_types(A1)]
+#[verifier::accept_recursive_types(O2)]
+pub struct ResidualBox<O1, A1, O2> { _p: core::marker::PhantomData<(O1, A1, O2)> }
+pub struct Optic<F, R, O1, A1, O2, A2> {
+    pub fwd: F,
+    pub rev: R,
+    pub residual: ResidualBox<O1, A1, O2>,
+    pub _phantom: core::marker::PhantomData<A2>,
+}
+''', tag='T:Optic-struct')
+
+
+fn(OP, 'map_object', trait='Functor', self_ty='Optic', status='P', props=['C14', 'C05'], rename='optic_map_object',
+   rules={'self_rename': ['this', '&Optic<F, R, O1, A1, O2, A2>'], 'ops': ['add', 'sub']},
+   generics_add=['F: Functor<O1, A1, O2, A2>, R: Functor<O1, A1, O2, A2>, O1: Clone, A1: Clone, O2: Clone, A2'],
+   requires=['lawful_clone::<O1>()', 'lawful_clone::<O2>()', 'small(a@.len())',
+             'small(total(flat_sizes(a@, |o: O1| this.fwd.obj(o))) as nat)', 'small(total(flat_sizes(a@, |o: O1| this.rev.obj(o))) as nat)'],
+   ensures=[('C14.optic-map_object', '''r.wf() && r.sources.table@.len() == a@.len()
+                && (forall|i: int| 0 <= i < a@.len() ==> #[trigger] seg_is(r, i, this.fwd.obj(a@[i]) + this.rev.obj(a@[i])))''')],
+   proofs=[G('before:assert_eq!(fa.len(), ra.len());', '''let ghost fs = fa.sources.table@; let ghost rs = ra.sources.table@; let ghost fv = fa.values@; let ghost rv = ra.values@;
+        let ghost nn = a@.len() as int;
+        proof {
+            assert(lawful_clone::<usize>());
+            lemma_fw_sizes(fa, a@, |o: O1| this.fwd.obj(o), Seq::<usize>::empty()); lemma_fw_sizes(ra, a@, |o: O1| this.rev.obj(o), Seq::<usize>::empty());
+            lemma_seg_wf_sources(fa.sources, fv.len()); lemma_seg_wf_sources(ra.sources, rv.len());
+            assert(2 * nn == nn * 2 && 2 * nn == nn + nn) by (nonlinear_arith);
+            lemma_ext_all(transpose_seq(2, nn));
+        }'''),
+           ('before:let sources = FiniteFunction::new(', '''let s2 = Seq::new(nn as nat, |m: int| (fs[m] + rs[m]) as usize);
+            assert forall|m: int| 0 <= m < nn implies fs[m] + rs[m] <= fv.len() + rv.len() by {
+                lemma_psum_mono(fs, 0, m); lemma_psum_mono(fs, m + 1, nn); lemma_psum_mono(rs, 0, m); lemma_psum_mono(rs, m + 1, nn);
+                assert(psum(fs, m + 1) == psum(fs, m) + fs[m] && psum(rs, m + 1) == psum(rs, m) + rs[m]);
+            }
+            lemma_interleave_offsets(fs, rs, s2, nn);'''),
+           ('before:IndexedCoproduct::new(sources, values).unwrap()', '''let s2 = Seq::new(nn as nat, |m: int| (fs[m] + rs[m]) as usize);
+            assert(sources.table@ =~= s2);
+            lemma_interleave_values(fs, rs, fv, rv, s2, values@);
+            assert forall|i: int| 0 <= i < nn implies #[trigger] seg_is(IndexedCoproduct::<SemifiniteFunction<O2>> { sources: sources, values: values }, i, this.fwd.obj(a@[i]) + this.rev.obj(a@[i])) by {
+                assert(seg_is(fa, i, this.fwd.obj(a@[i])) && seg_is(ra, i, this.rev.obj(a@[i])));
+                let l = this.fwd.obj(a@[i]) + this.rev.obj(a@[i]);
+                assert forall|j: int| 0 <= j < l.len() implies values@[#[trigger] seg_at(s2, i, j)] == l[j] by {
+                    if j < fs[i] { assert(fv[seg_at(fs, i, j)] == this.fwd.obj(a@[i])[j]); }
+                    else { let j2 = j - fs[i]; assert(values@[seg_at(s2, i, fs[i] + j2)] == rv[psum(rs, i) + j2]); assert(rv[seg_at(rs, i, j2)] == this.rev.obj(a@[i])[j2]); }
+                }
+            }''')])
+
+raw(r'''
+/// two flat images of the same list under the same object map are equal
+pub proof fn lemma_flat_unique<O1, O2>(t1: Seq<O2>, t2: Seq<O2>, a: Seq<O1>, obj: spec_fn(O1) -> Seq<O2>)
+    requires is_flat_image(t1, a, obj), is_flat_image(t2, a, obj)
+    ensures t1 =~= t2
+{
+    let k = flat_sizes(a, obj);
+    assert forall|m: int| 0 <= m < t1.len() implies t1[m] == t2[m] by {
+        let (p, j) = lemma_seg_find(k, m);
+        assert(t1[seg_at(k, p, j)] == obj(a[p])[j] && t2[seg_at(k, p, j)] == obj(a[p])[j]);
+    }
+}
+
+/// the values of a map_object result are the flat image of the list
+pub proof fn lemma_values_flat<O1, O2>(fa: IndexedCoproduct<SemifiniteFunction<O2>>, a: Seq<O1>, obj: spec_fn(O1) -> Seq<O2>)
+    requires fa.wf(), fa.sources.table@.len() == a.len(), forall|i: int| 0 <= i < a.len() ==> #[trigger] seg_is(fa, i, obj(a[i]))
+    ensures is_flat_image(fa.values@, a, obj), flat_sizes(a, obj) =~= fa.sources.table@
+{
+    let k = flat_sizes(a, obj);
+    assert forall|i: int| 0 <= i < a.len() implies k[i] == fa.sources.table@[i] && obj(a[i]).len() <= usize::MAX by { assert(seg_is(fa, i, obj(a[i]))); }
+    assert(k =~= fa.sources.table@);
+    assert(fa.values@.len() == total(k));
+    assert forall|p: int| 0 <= p < a.len() implies obj(a[p]).len() <= usize::MAX by { assert(seg_is(fa, p, obj(a[p]))); }
+    assert forall|p: int, j: int| 0 <= p < a.len() && 0 <= j < k[p] implies fa.values@[#[trigger] seg_at(k, p, j)] == obj(a[p])[j] by { assert(seg_is(fa, p, obj(a[p]))); }
+}
+
+/// the block-wise interleaving of F(A) and R(A) is the flat image of A under o |-> F(o) ++ R(o)
+pub proof fn lemma_interleaved_flat<O1, O2>(tg: Seq<O2>, fa: IndexedCoproduct<SemifiniteFunction<O2>>, ra: IndexedCoproduct<SemifiniteFunction<O2>>, a: Seq<O1>,
+                                            fobj: spec_fn(O1) -> Seq<O2>, robj: spec_fn(O1) -> Seq<O2>, obj2: spec_fn(O1) -> Seq<O2>)
+    requires fa.wf(), ra.wf(), fa.sources.table@.len() == a.len(), ra.sources.table@.len() == a.len(),
+        forall|i: int| 0 <= i < a.len() ==> #[trigger] seg_is(fa, i, fobj(a[i])),
+        forall|i: int| 0 <= i < a.len() ==> #[trigger] seg_is(ra, i, robj(a[i])),
+        forall|o: O1| #[trigger] obj2(o) == fobj(o) + robj(o),
+        forall|i: int| 0 <= i < a.len() ==> fa.sources.table@[i] + ra.sources.table@[i] <= usize::MAX,
+        ({ let fs = fa.sources.table@; let rs = ra.sources.table@; let s2 = Seq::new(fs.len(), |m: int| (fs[m] + rs[m]) as usize);
+           tg.len() == total(s2)
+           && (forall|i: int, j: int| 0 <= i < fs.len() && 0 <= j < fs[i] ==> tg[#[trigger] seg_at(s2, i, j)] == fa.values@[psum(fs, i) + j])
+           && (forall|i: int, j: int| 0 <= i < fs.len() && 0 <= j < rs[i] ==> #[trigger] tg[seg_at(s2, i, fs[i] + j)] == ra.values@[psum(rs, i) + j]) }),
+    ensures is_flat_image(tg, a, obj2)
+{
+    let fs = fa.sources.table@; let rs = ra.sources.table@; let s2 = Seq::new(fs.len(), |m: int| (fs[m] + rs[m]) as usize);
+    let k = flat_sizes(a, obj2);
+    assert forall|i: int| 0 <= i < a.len() implies k[i] == s2[i] && obj2(a[i]).len() <= usize::MAX by {
+        assert(seg_is(fa, i, fobj(a[i])) && seg_is(ra, i, robj(a[i])));
+        assert(obj2(a[i]) == fobj(a[i]) + robj(a[i]));
+    }
+    assert(k =~= s2);
+    assert(tg.len() == total(k));
+    assert forall|p: int| 0 <= p < a.len() implies obj2(a[p]).len() <= usize::MAX by { assert(k[p] == s2[p]); }
+    assert forall|p: int, j: int| 0 <= p < a.len() && 0 <= j < k[p] implies tg[#[trigger] seg_at(k, p, j)] == obj2(a[p])[j] by {
+        assert(seg_is(fa, p, fobj(a[p])) && seg_is(ra, p, robj(a[p])));
+        assert(obj2(a[p]) == fobj(a[p]) + robj(a[p]));
+        if j < fs[p] { assert(tg[seg_at(s2, p, j)] == fa.values@[psum(fs, p) + j]); assert(fa.values@[seg_at(fs, p, j)] == fobj(a[p])[j]); }
+        else { let j2 = j - fs[p]; assert(tg[seg_at(s2, p, fs[p] + j2)] == ra.values@[psum(rs, p) + j2]); assert(ra.values@[seg_at(rs, p, j2)] == robj(a[p])[j2]); }
+    }
+}
+
+/// machine arithmetic for adapt: the four object images and the diagram c are small
+pub open spec fn adapt_sizes<O1, O2, A2>(c: OpenHypergraph<O2, A2>, a: Seq<O1>, b: Seq<O1>, fobj: spec_fn(O1) -> Seq<O2>, robj: spec_fn(O1) -> Seq<O2>) -> bool {
+    &&& small(a.len()) && small(b.len())
+    &&& small(total(flat_sizes(a, fobj)) as nat) && small(total(flat_sizes(a, robj)) as nat)
+    &&& small(total(flat_sizes(b, fobj)) as nat) && small(total(flat_sizes(b, robj)) as nat)
+    &&& small(c.h.w@.len()) && small(c.h.x@.len()) && small(c.h.s.values.table@.len()) && small(c.h.t.values.table@.len())
+    &&& small(c.s.table@.len()) && small(c.t.table@.len())
+}
+''')
+
+fn(OP, 'adapt', self_ty='Optic', status='P', props=['C14', 'C05'], rename='optic_adapt',
+   rules={'self_rename': ['this', '&Optic<F, R, O1, A1, O2, A2>']},
+   generics_add=['F: Functor<O1, A1, O2, A2>, R: Functor<O1, A1, O2, A2>, O1: Clone, A1: Clone, O2: Clone + PartialEq, A2: Clone'],
+   requires=['c.wf()', 'lawful_clone::<O1>()', 'lawful_clone::<O2>()', 'lawful_clone::<A2>()', 'lawful_eq::<O2>()',
+             'adapt_sizes(*c, a@, b@, |o: O1| this.fwd.obj(o), |o: O1| this.rev.obj(o))',
+             # c has the optic type interleave(F A, R A) -> interleave(F B, R B)
+             'is_flat_image(c.src_type(), a@, |o: O1| this.fwd.obj(o) + this.rev.obj(o))',
+             'is_flat_image(c.tgt_type(), b@, |o: O1| this.fwd.obj(o) + this.rev.obj(o))'],
+   ensures=[('C14.adapt-wf', 'r.wf()'),
+            ('C14.adapt-type', '''exists|fa_t: Seq<O2>, rb_t: Seq<O2>, fb_t: Seq<O2>, ra_t: Seq<O2>|
+                is_flat_image(fa_t, a@, |o: O1| this.fwd.obj(o)) && is_flat_image(rb_t, b@, |o: O1| this.rev.obj(o))
+                && is_flat_image(fb_t, b@, |o: O1| this.fwd.obj(o)) && is_flat_image(ra_t, a@, |o: O1| this.rev.obj(o))
+                && #[trigger] (fa_t + rb_t) =~= r.src_type() && #[trigger] (fb_t + ra_t) =~= r.tgt_type()''')],
+   proofs=[('before:let lhs = interleave_blocks(&fa, &ra);', '''assert(lawful_clone::<usize>());
+            let fobj = |o: O1| this.fwd.obj(o); let robj = |o: O1| this.rev.obj(o); let obj2 = |o: O1| this.fwd.obj(o) + this.rev.obj(o);
+            lemma_values_flat(fa, a@, fobj); lemma_values_flat(ra, a@, robj); lemma_values_flat(fb, b@, fobj); lemma_values_flat(rb, b@, robj);
+            lemma_seg_wf_sources(fa.sources, fa.values@.len()); lemma_seg_wf_sources(ra.sources, ra.values@.len());
+            lemma_seg_wf_sources(fb.sources, fb.values@.len()); lemma_seg_wf_sources(rb.sources, rb.values@.len());
+            let na = a@.len() as int; let nb = b@.len() as int;
+            assert(2 * na == na * 2 && 2 * nb == nb * 2) by (nonlinear_arith);
+            let s2a = Seq::new(na as nat, |m: int| (fa.sources.table@[m] + ra.sources.table@[m]) as usize);
+            let s2b = Seq::new(nb as nat, |m: int| (fb.sources.table@[m] + rb.sources.table@[m]) as usize);
+            assert forall|m: int| 0 <= m < na implies fa.sources.table@[m] + ra.sources.table@[m] <= usize::MAX by {}
+            assert forall|m: int| 0 <= m < nb implies fb.sources.table@[m] + rb.sources.table@[m] <= usize::MAX by {}
+            lemma_interleave_offsets(fa.sources.table@, ra.sources.table@, s2a, na);
+            lemma_interleave_offsets(fb.sources.table@, rb.sources.table@, s2b, nb);
+            assert forall|x: OpenHypergraph<O2, A2>, y: OpenHypergraph<O2, A2>| #[trigger] is_dagger(y, x) implies y.src_type() =~= x.tgt_type() && y.tgt_type() =~= x.src_type() by {}'''),
+           ('before:let d = lhs.compose(c).unwrap().compose(&rhs).unwrap();', '''let fobj = |o: O1| this.fwd.obj(o); let robj = |o: O1| this.rev.obj(o); let obj2 = |o: O1| this.fwd.obj(o) + this.rev.obj(o);
+            lemma_interleaved_flat(lhs.tgt_type(), fa, ra, a@, fobj, robj, obj2);
+            lemma_flat_unique(lhs.tgt_type(), c.src_type(), a@, obj2);
+            lemma_interleaved_flat(rhs.src_type(), fb, rb, b@, fobj, robj, obj2);
+            lemma_flat_unique(c.tgt_type(), rhs.src_type(), b@, obj2);'''),
+           ('end', '''let fa_t = fa.values@; let rb_t = rb.values@; let fb_t = fb.values@; let ra_t = ra.values@;
+            assert(d.src_type() =~= fa_t + ra_t);
+            assert(d.tgt_type() =~= fb_t + rb_t);
+            assert(d.src_type().subrange(0, fa_t.len() as int) =~= fa_t && d.src_type().subrange(fa_t.len() as int, (fa_t.len() + ra_t.len()) as int) =~= ra_t);
+            assert(d.tgt_type().subrange(0, fb_t.len() as int) =~= fb_t && d.tgt_type().subrange(fb_t.len() as int, (fb_t.len() + rb_t.len()) as int) =~= rb_t);
+            let w1 = fa_t + rb_t; let w2 = fb_t + ra_t;''')])
